@@ -60,9 +60,13 @@ ValueOK(f, v) ==
      ELSE IF IsVar(f) THEN Len(v) <= 65535
      ELSE Len(v) = f.len
 
+\* DEVIATION (named): the record builders accept an ill-fitting value for a fixed-length octet array (only the
+\* exporter's sanity check refuses it, C09); the encoder then writes nothing and the field reads as zeroes.
+Loose(f, v) == f.type = "octetArray" /\ ~IsVar(f) /\ Len(v) # f.len
 EncValue(f, v) ==
   IF f.type = "boolean" THEN (IF v = <<1>> THEN <<1>> ELSE <<2>>)
   ELSE IF IsVar(f) THEN VarLenPrefix(Len(v)) \o v
+  ELSE IF Loose(f, v) THEN [i \in 1..f.len |-> 0]
   ELSE v
 
 EncLen(f, v) ==
